@@ -484,6 +484,33 @@ def run(job, res):
     if bad:
       clauses.append({"clause": "sharded_pspec", "path": "rank", "detail": bad})
 
+  # ---- tearfree second-order transforms: the praxis partition-spec description -----------------
+  # (a second description of the same state: WeightHParams with shapes; it must describe the tree that
+  #  init actually builds - the same multiset of leaf shapes)
+  if opt_kind == "tfso":
+    from precondition.tearfree import praxis_shim
+    try:
+      hp = {n: praxis_shim.WeightHParams(shape=list(sh_), init=None, dtype=jnp.float32, collections=None,
+                                         tensor_split_dims_mapping=[-1] * len(sh_))
+            for n, sh_ in zip(names, tree)}
+      with _quiet():
+        ps = tx.init_partition_spec(hp)
+    except Exception as e:     # pylint: disable=broad-except
+      raise Failure("pspec", e)
+    is_w = lambda v: isinstance(v, praxis_shim.WeightHParams)
+    # the partition-spec tree uses dicts where the state uses NamedTuples, so flattening orders differ
+    # by construction: compare the multisets of leaf shapes
+    decl_shapes = sorted(tuple(v.shape) for v in jax.tree.leaves(ps, is_leaf=is_w) if is_w(v))
+    real_shapes = sorted(tuple(x.shape) for x in jax.tree.leaves(state0))
+    if decl_shapes != real_shapes:
+      k = next((i for i, (a, b) in enumerate(zip(decl_shapes, real_shapes)) if a != b),
+               min(len(decl_shapes), len(real_shapes)))
+      clauses.append({"clause": "tearfree_pspec", "path": f"leaf{k}",
+                      "detail": f"init_partition_spec declares {len(decl_shapes)} leaves, init builds "
+                                f"{len(real_shapes)}; first difference at leaf {k}: "
+                                f"{decl_shapes[k:k + 1]} vs {real_shapes[k:k + 1]}"})
+    res["tf_pspec_checked"] = True
+
   # ---- Update x T -----------------------------------------------------------------------
   t0 = time.time()
   state = state0
